@@ -78,15 +78,23 @@ def parseSlice (a b c : String) : Option Slice := do
 
 def dvList? (s : String) : Option (List DV) := (intList? s).map (·.map DV.int)
 
+/-- An iterable argument of a list method: `[1,2]`, or the same behind a one-letter marker
+of the Python iterable kind (`g` generator, `t` tuple, `i` iterator; seqlib.parse_list).
+Every override converts it to a concrete list first, so the model ignores the marker. -/
+def iterList? (s : String) : Option (List DV) :=
+  let s := clean s
+  if s.startsWith "g" || s.startsWith "t" || s.startsWith "i" then dvList? (s.drop 1).toString
+  else dvList? s
+
 def parseOp (ws : List String) : Option (Op DV) :=
   match ws with
   | ["si", i, x] => do pure (.setIdx (← int? i) (.int (← int? x)))
-  | ["ss", a, b, c, xs] => do pure (.setSlice (← parseSlice a b c) (← dvList? xs))
+  | ["ss", a, b, c, xs] => do pure (.setSlice (← parseSlice a b c) (← iterList? xs))
   | ["di", i] => do pure (.delIdx (← int? i))
   | ["ds", a, b, c] => do pure (.delSlice (← parseSlice a b c))
   | ["ap", x] => do pure (.append (.int (← int? x)))
-  | ["ex", xs] => do pure (.extend (← dvList? xs))
-  | ["ia", xs] => do pure (.iadd (← dvList? xs))
+  | ["ex", xs] => do pure (.extend (← iterList? xs))
+  | ["ia", xs] => do pure (.iadd (← iterList? xs))
   | ["im", n] => do pure (.imul (← int? n))
   | ["in", i, x] => do pure (.insert (← int? i) (.int (← int? x)))
   | ["po", i] => do pure (.pop (← int? i))
